@@ -10,7 +10,8 @@ destruction, flushes in any order — `Reachable`; those that need the documente
 returned by a collector call is flushed before the next call / before the state dies) quantify over all
 operation lists satisfying `Flushed` — `FlushedReachable`.
 
-Also here: `c15_model_is_the_loop` (the closed forms the proofs use are the awaiter-by-awaiter loops of the code, which is
+Also here: `c15_hookup_receives_registration_value` (`hook_up` subscribes before the registration function runs),
+`c15_model_is_the_loop` (the closed forms the proofs use are the awaiter-by-awaiter loops of the code, which is
 what the driver runs against the headers) and the publication discipline of `awaiter::subscribe`
 (`c15_subscribe_no_touch_after_publish`, with the `decide` witness `c15_asis_subscribe_uaf` for the pinned code).
 
@@ -203,6 +204,44 @@ theorem c15_unflushed_can_miss :
     ∧ (run init [Op.listen [], Op.emit false 1, Op.emit false 2, Op.emit false 3, Op.resume 0]).expect 0 = [Out.val 1]
     ∧ (run init [Op.listen [], Op.emit false 1, Op.emit false 2, Op.emit false 3, Op.resume 0]).emitted = [1, 2, 3]
     ∧ ¬ Flushed init [Op.listen [], Op.emit false 1, Op.emit false 2, Op.emit false 3, Op.resume 0] := by decide
+
+theorem reachable_step {s : State} (h : Reachable s) (op : Op) : Reachable (step s op).1 := by
+  obtain ⟨ops, rfl⟩ := h
+  exact ⟨ops ++ [op], by simp [run, List.foldl_append]⟩
+
+/-- `hook_up` (signal.h:324-343): the first `co_await` creates the state, subscribes the coroutine and only THEN runs the
+registration function.  So a collector call made by the registration function itself (a generator that replays its
+current value on registration) — or by anyone who got the collector from it — finds the coroutine waiting: it is put
+into the returned suspend point and reads that value when it runs (after its `await_suspend` has returned).
+Stated for any reachable state with nothing unflushed; `hook_up` itself starts from `init`. -/
+theorem c15_hookup_receives_registration_value {s : State} (h : Reachable s) (hrel : s.rel = []) (h0 : s.handles ≠ 0)
+    (sc : List Act) (r : Bool) (v : Nat) :
+    s.next ∈ (stepListen s sc).1.chain ∧
+    s.next ∈ (stepEmit (stepListen s sc).1 r v).1.rel ∧
+    readNow (stepEmit (stepListen s sc).1 r v).1 = Out.val v ∧
+    (stepResume (stepEmit (stepListen s sc).1 r v).1 s.next).1.got s.next = [Out.val v] := by
+  have h1 : Reachable (stepListen s sc).1 := reachable_step h (Op.listen sc)
+  have h2 : Reachable (stepEmit (stepListen s sc).1 r v).1 := reachable_step h1 (Op.emit r v)
+  have hc : s.next ∈ (stepListen s sc).1.chain := by simp [stepListen, reawait, fresh, h0]
+  have hk : (stepListen s sc).1.isCb s.next = false := by simp [stepListen, reawait, fresh, h0]
+  have hh : (stepListen s sc).1.handles ≠ 0 := by simp [stepListen, reawait, fresh, h0]
+  have hr1 : (stepListen s sc).1.rel = [] := by simpa [stepListen, reawait, fresh, h0] using hrel
+  have hg1 : (stepListen s sc).1.got s.next = [] := by simp [stepListen, reawait, fresh, h0]
+  obtain ⟨hrel2, _, _, hread, _, _⟩ := c15_broadcast_step h1 hr1 hh r v
+  have hm : s.next ∈ (stepEmit (stepListen s sc).1 r v).1.rel := by
+    rw [hrel2]; exact mem_corosOf.mpr ⟨hc, hk⟩
+  have hg2 : (stepEmit (stepListen s sc).1 r v).1.got s.next = [] := by
+    have hn : s.next ∉ cbsOf (stepListen s sc).1 := fun hh' => by
+      have := (mem_cbsOf.mp hh').2; rw [hk] at this; cases this
+    simp only [stepEmit, hh, if_false, hn]
+    exact hg1
+  refine ⟨hc, hm, hread, ?_⟩
+  rw [(c15_resume_reads_current h2 s.next hm).1, hg2, hread]
+  rfl
+
+/-- the hook-up history of the demo: registration replays 1, the generator then emits 2 and 3 and lets the collector go -/
+example : (run init [Op.listen [], Op.emit false 1, Op.resume 0, Op.emit false 2, Op.resume 0, Op.emit false 3,
+    Op.resume 0, Op.dropHandle, Op.resume 0]).got 0 = [Out.val 1, Out.val 2, Out.val 3, Out.canceled] := by decide
 
 /-- Model fidelity: on every reachable state the closed forms used by `step` are exactly the loops of the code —
 `resume_chain_lk` walking the detached chain awaiter by awaiter inside the collector call and inside `~state`. -/
